@@ -473,10 +473,26 @@ def apply_op(dendropy, case, A, op, k, keep):
             for gt, st in new.items():
                 gt.c18_species = st
             m.apply_mapping_attr_name("c18_species", domain_taxon_namespace=dom, range_taxon_namespace=rng_ns)
+    elif o == "annotate":
+        # what a caller does to look at the tree: ages, root distances, bipartitions get cached on its nodes/edges
+        t = A["sp"] if "sp" in A else A["tree"]
+        what = op.get("what", "all")
+        if what in ("ages", "all"):
+            t.calc_node_ages(ultrametricity_precision=False)
+        if what in ("internal_ages", "all"):
+            keep.append(t.internal_node_ages(ultrametricity_precision=False))
+        if what in ("root_dist", "all"):
+            t.calc_node_root_distances()
+        if what in ("bipartitions", "all"):
+            t.encode_bipartitions()
     elif o == "edit_len":
-        for nd in _preorder(A["sp"]):
-            if nd.edge.length is not None:
-                nd.edge.length = nd.edge.length * op["f"]
+        t = A["sp"] if "sp" in A else A["tree"]
+        if op.get("how") == "scale_edges":
+            t.scale_edges(op["f"])
+        else:
+            for nd in _preorder(t):
+                if nd.edge.length is not None:
+                    nd.edge.length = nd.edge.length * op["f"]
     elif o == "edit_pop":
         for nd, q in zip(_preorder(A["sp"]), op["pops"]):
             nd.edge.pop_size = q
@@ -504,7 +520,8 @@ def current_desc(case, A):
             gm0 = f["gm"] if f.get("gm") is not None else _consecutive(f["G"])
             f["gm"] = [op["p"][c - 1] for c in gm0]
         elif o == "edit_len":
-            f["sp"] = dict(f["sp"], len=[x * op["f"] for x in f["sp"]["len"]])
+            key = "sp" if f.get("sp") else "start"
+            f[key] = dict(f[key], len=[x * op["f"] for x in f[key]["len"]])
         elif o == "edit_pop":
             f["edge_pop"] = list(op["pops"])
         elif o == "set_genes":
